@@ -97,7 +97,7 @@ type c10History struct {
 func c10GenHistory(seed int64, idx int) c10History {
 	rng := core.Derive(seed, "c10", idx)
 	kind := c10Kinds[rng.Intn(len(c10Kinds))]
-	h := c10History{Kind: kind.name, Elem: core.Pick(rng, []string{"int", "string", "slice", "float64", "uint8"}), Init: rng.Intn(4)}
+	h := c10History{Kind: kind.name, Elem: core.Pick(rng, []string{"int", "string", "slice", "float64", "uint8", "any"}), Init: rng.Intn(4)}
 	n := rng.Range(10, 50)
 	pickKey := func() int { return rng.Intn(len(kind.keys)) }
 	last := pickKey()
@@ -163,6 +163,8 @@ func c10ElemOf(name string) c10Elem {
 		return c10Elem{name, goatlang.TypeFloat64}
 	case "uint8":
 		return c10Elem{name, goatlang.TypeUint8}
+	case "any":
+		return c10Elem{name, goatlang.TypeNil}
 	}
 	return c10Elem{name, goatlang.TypeInt32}
 }
@@ -177,6 +179,10 @@ func (e c10Elem) mk(v int) goatlang.Value {
 		return goatlang.Float64(float64(v))
 	case "uint8":
 		return goatlang.Byte(byte(v))
+	case "any":
+		if v%4 == 0 {
+			return goatlang.Nil() // a stored nil is an entry like any other
+		}
 	}
 	return goatlang.Int(v)
 }
@@ -188,8 +194,13 @@ func (e c10Elem) render(v int, present bool) string {
 			return ""
 		case "slice":
 			return "[]"
+		case "any":
+			return "nil"
 		}
 		return "0"
+	}
+	if e.name == "any" && v%4 == 0 {
+		return "nil"
 	}
 	switch e.name {
 	case "string":
@@ -288,7 +299,7 @@ func c10RunHost(h c10History) (problem string, events int) {
 			if got.String() != elem.render(want, present) {
 				return fmt.Sprintf("Get(%v) = %s, Go says %s", nk, got.String(), elem.render(want, present))
 			}
-			if vm.VerifTypeOf(got) != vm.VerifTypeOf(elem.mk(0)) {
+			if elem.name != "any" && vm.VerifTypeOf(got) != vm.VerifTypeOf(elem.mk(0)) {
 				return fmt.Sprintf("Get(%v) has type %s, the element type is %s", nk, vm.VerifTypeOf(got), vm.VerifTypeOf(elem.mk(0)))
 			}
 		case "len":
@@ -399,7 +410,7 @@ func c10Script(h c10History) (src string, ok bool) {
 		et = "string"
 	case "slice":
 		et = "[]int"
-	case "float64", "uint8":
+	case "float64", "uint8", "any":
 		et = h.Elem
 	}
 	elem := c10ElemOf(h.Elem)
@@ -412,6 +423,10 @@ func c10Script(h c10History) (src string, ok bool) {
 			return "[]int{" + strconv.Itoa(v) + "}"
 		case "uint8":
 			return strconv.Itoa(v & 255)
+		case "any":
+			if v%4 == 0 {
+				return "nil"
+			}
 		}
 		return strconv.Itoa(v)
 	}
@@ -426,6 +441,19 @@ func c10Script(h c10History) (src string, ok bool) {
 		}
 		seen[k] = true
 		lits = append(lits, k+": "+val(i))
+	}
+	// a nil map of the same type answers reads like an empty one (literal and variable keys, comma-ok, len, range)
+	{
+		k0, k1 := c10ScriptKey(kind, 0), c10ScriptKey(kind, len(kind.keys)-1)
+		fmt.Fprintf(&sb, "\tvar nm map[%s]%s\n\tkv := %s\n", kt, et, k1)
+		nprobe := func(expr string) string {
+			if h.Elem == "string" {
+				return "\"[\" + " + expr + " + \"]\""
+			}
+			return elem.probe(expr)
+		}
+		fmt.Fprintf(&sb, "\tprintln(\"n\", %s, %s, len(nm))\n", nprobe("nm["+k0+"]"), nprobe("nm[kv]"))
+		fmt.Fprintf(&sb, "\tnv, nok := nm[%s]\n\tprintln(\"n\", %s, nok)\n\tfor range nm {\n\t\tprintln(\"nil map ranged\")\n\t}\n", k0, nprobe("nv"))
 	}
 	if len(lits) == 0 && h.Init%2 == 0 {
 		fmt.Fprintf(&sb, "\tm := make(map[%s]%s)\n", kt, et)
@@ -451,6 +479,13 @@ func c10Script(h c10History) (src string, ok bool) {
 			n++
 			fmt.Fprintf(&sb, "\tc%d := maps.Clone(m)\n\tm[%s] = %s\n\tc%d[%s] = %s\n\tprintln(\"cl\", len(c%d), len(m))\n", n, k, val(op.V), n, c10ScriptKey(kind, op.K2), val(op.V+1), n)
 		case "range":
+			if n%3 == 1 {
+				// the loop variable may have the name of the ranged map: the expression is evaluated before it exists
+				fmt.Fprintf(&sb, "\tprintln(\"rb\")\n\tfor k, m := range m {\n\t\tprintln(\"rv\", k, %s)\n\t}\n\tprintln(\"re\")\n", elem.probe("m"))
+				n++
+				break
+			}
+			n++
 			fmt.Fprintf(&sb, "\tprintln(\"rb\")\n\tfor k, v := range m {\n\t\tprintln(\"rv\", k, %s)\n\t}\n\tprintln(\"re\")\n", elem.probe("v"))
 		case "range-stepped":
 			// mutate while iterating: the i-th visit performs the i-th sub-operation
@@ -535,6 +570,20 @@ func c10CheckScript(h c10History, out string) string {
 			return fmt.Sprintf("printed %q, Go semantics give %q", l, want)
 		}
 		return ""
+	}
+	{
+		z := elem.renderProbe(0, false)
+		if h.Elem == "string" {
+			z = "[]"
+		}
+		if h.Elem == "any" {
+			z = "nil"
+		}
+		for _, want := range []string{"n " + z + " " + z + " 0", "n " + z + " false"} {
+			if p := expectLine(want); p != "" {
+				return "reading a nil map: " + p
+			}
+		}
 	}
 	all := append(append([]c10Op{}, h.Ops...), c10Op{Op: "len"})
 	for oi, op := range all {
@@ -663,7 +712,7 @@ func c10RunScript(h c10History) (string, bool) {
 }
 
 func runC10(r *core.Run) {
-	r.SetRule("random operation histories (insert, update, delete, lookup, comma-ok, len, full range, range with insert/delete interleaved at chosen visits, drain-to-empty to cross the compaction threshold, delete->reinsert of the same key) over a universe of 2-8 keys per key kind {string, int, int8, uint8, uint32, float64 incl. +-0 and +-Inf, bool} and element kinds {int, string, []int, float64, uint8 - the last two observed in scripts through a type-sensitive expression}; maps.Clone followed by one insert into the original and one into the clone; every history runs through the host Value API (with the internal key list inspected after every operation) and, for string and int keys, also as a generated script. non-trivial = at least 5 operations executed; distinct by history")
+	r.SetRule("random operation histories (insert, update, delete, lookup, comma-ok, len, full range, range with insert/delete interleaved at chosen visits, drain-to-empty to cross the compaction threshold, delete->reinsert of the same key) over a universe of 2-8 keys per key kind {string, int, int8, uint8, uint32, float64 incl. +-0 and +-Inf, bool} and element kinds {int, string, []int, float64, uint8 - the last two observed in scripts through a type-sensitive expression -, any with stored nils}; reads of a nil map of the same type through literal and variable keys; a range whose value variable has the name of the map; maps.Clone followed by one insert into the original and one into the clone; every history runs through the host Value API (with the internal key list inspected after every operation) and, for string and int keys, also as a generated script. non-trivial = at least 5 operations executed; distinct by history")
 	r.Assume("a native Go map is the model for point queries; for ranges only the Go-spec constraints are judged (exactly once for keys live throughout, never a key that is not in the map at that moment, at most once for inserted keys), never the order; NaN keys are excepted by the property")
 	n := r.N(20000, 600000)
 	core.Parallel((n+199)/200, func(chunk int) {
